@@ -197,6 +197,41 @@ def forms_witnesses(diffs):
     return out
 
 
+def recut(rng, seq):
+    """another sequence with the same strand lengths whose members join to the same text: the text of every strand is cut
+    into as many non-empty names at other places (['a', 'aa'] -> ['aa', 'a'])"""
+    out, strand = [], []
+    for x in list(seq) + ["+"]:
+        if x != "+":
+            strand.append(x)
+            continue
+        text, k = "".join(strand), len(strand)
+        if k and len(text) > k:
+            cut = [0] + sorted(rng.sample(range(1, len(text)), k - 1)) + [len(text)]
+            strand = [text[cut[i]:cut[i + 1]] for i in range(k)]
+        out += strand + ["+"]
+        strand = []
+    return out[:-1]
+
+
+def members_failure(args, r):
+    """direct statement on an answer of `rotate_db_members`: every rotation consists of '+' markers and of the very objects
+    handed over in THIS call (whatever was rotated before), each under its own name"""
+    from common import Err
+    seq = args[0]
+    if isinstance(r, Err) or not isinstance(r, list):
+        return None                                   # failures are compared with the model in the correspondence batches
+    for k, rot in enumerate(r):
+        nm, _st, org = rot
+        for j, (n, o) in enumerate(zip(nm, org)):
+            if (n == "+") != (o == -2) or (n != "+" and (o < 0 or o >= len(seq) or seq[o] != n)):
+                return (f"rotation {k} of rotate_complex_db holds at position {j} the member {n!r} which is not a member of "
+                        f"the sequence handed over in this call (names {nm!r}, origins {org!r}, input {seq!r})")
+        if sorted(x for x in nm if x != "+") != sorted(x for x in seq if x != "+"):
+            return f"rotation {k} of rotate_complex_db has the members {nm!r}, the input has {seq!r}"
+    return None
+
+
 def history_witnesses(diffs):
     """disagreements of view histories (query, turns assignment, query): the direct statement of the property on the
     implementation is that every view equals that of a fresh complex at the same rotation"""
@@ -298,6 +333,37 @@ def run(ctx):
                 freqs.append((fn_, [sq_, list(s_)]))
                 fimpl.append(("rotate_forms", [fn_, sq_, list(s_), sf_, tf_]))
         diffs += correspond(ctx, "argument-forms", freqs, impl_reqs=fimpl)
+        # different complexes that READ the same: names that are concatenations of each other ('a','aa' / 'aa','a'), so that
+        # the joined text of the sequence (and the structure) is equal while the domains differ; rotated one after the other
+        # in one process.  And the members themselves: plain names or domain objects of the same names - a rotation consists
+        # of the very members of ITS input (direct statement on identities, `rotate_db_members`).
+        ereqs, eimpl, mreqs = [], [], []
+        epool = [c for c in small if "+" in c["sst"]]
+        for c_ in rng.sample(epool, min(len(epool), 150 if ctx.tier == "quick" else 2000)) + rnd[:25]:
+            s_ = c_["sst"]
+            seq_ = gs.seq_for(rng, s_, names=rng.choice([("a", "aa", "aaa"), ("a", "b", "ab", "ba"), ("d1", "d", "1", "d11")]),
+                              complementary=rng.random() < 0.5)
+            cuts = [recut(rng, seq_) for _ in range(3)]
+            later = cuts.pop(rng.randrange(len(cuts))) if rng.random() < 0.5 else seq_
+            earlier = [[x, list(s_)] for x in cuts + [seq_] if x != later]
+            for opn in ("rotate_complex_db", "rotate_complex_once"):
+                ereqs.append((opn, [later, list(s_)]))
+                eimpl.append(("after", [opn, earlier, [later, list(s_)]]))
+            if len(mreqs) < (120 if ctx.tier == "quick" else 1500):
+                msk = [rng.random() < 0.6 for _ in later]
+                e2 = [[e[0], e[1], rng.choice([msk, [False], [True], [not b for b in msk]])] for e in earlier[:2]]
+                e2 += [[later, list(s_), rng.choice([[False], [True], [not b for b in msk]])], [later, list(s_), msk]]
+                rng.shuffle(e2)
+                mreqs.append(("after", ["rotate_db_members", e2, [later, list(s_), msk]]))
+        diffs += correspond(ctx, "after-equal-text", ereqs, impl_reqs=eimpl)
+        nbad = 0
+        for rq, r in zip(mreqs, _ri2(mreqs)):
+            w = members_failure(rq[1][2], r)
+            if w:
+                nbad += 1
+                direct.append({"key": {"members": rq[1]}, "input": {"members": rq[1]}, "what": w,
+                               "snippet": f"# harness op after {rq[1]!r} (harness/implrunner.py, harness/impl/rotation.py)"})
+        ctx.cov["correspondence"]["members-of-the-input(impl)"] = {"cases": len(mreqs), "failures": nbad}
     ctx.cov["rule"] = ("every well-formed structure with non-empty strands up to the tier's length bound (8 quick / 10 "
                        "thorough) with generated domain content, random structures up to 60 strands / depth 100, single "
                        "strands, disconnected and rotationally symmetric complexes, each through rotate_complex_once, "
@@ -365,6 +431,12 @@ def replay(data):
         a_, b_ = run_impl([("rotate_forms", [fn, seq, sst, "list", "list"]), ("rotate_forms", inp["forms"])], jobs=1)
         print("as lists:", a_, f"| structure as {tform}, sequence as {sform}:", b_)
         return 1 if a_ != b_ else 0
+    if isinstance(inp, dict) and "members" in inp:
+        from common import run_impl
+        r = run_impl([("after", inp["members"])], jobs=1)[0]
+        w = members_failure(inp["members"][2], r)
+        print(w or r)
+        return 1 if w else 0
     if isinstance(inp, dict) and "after" in inp:
         from common import run_impl
         name, earlier, args = inp["after"]
